@@ -9,7 +9,8 @@ COQ_PRELUDE = "From MV Require Import Model.View.\nOpen Scope N_scope.\n"
 RULE = ("a case is a history of 1..30 calls on one fresh View over a pool of 2..6 flow objects of all four types "
         "(HTTP/TCP/UDP/DNS): 70% random histories (add / mutate+update with 0-2 changed attributes among the four sort "
         "keys, method, marked / remove / set_filter over an 8-entry filter dictionary / set_order / set_reversed / "
-        "toggle_marked / clear / clear_not_marked / focus_follow / multi-flow add, update, remove), 30% adversarial "
+        "toggle_marked / clear / clear_not_marked / focus_follow / multi-flow add, update, remove / silent attribute "
+        "change without update), 30% adversarial "
         "histories assembled from fragments aimed at the cached-key and marked-only logic (toggle then add, order "
         "round trips around a key change, filter out - change key - filter in, duplicate adds, removing and updating "
         "unknown flows, reversal around removals).  After every call the visible ids, focus, settings keys, store and "
@@ -23,7 +24,7 @@ TRUSTED = ["Coq 8.16.1 kernel (coqc), vm_compute for case evaluation",
            "flowfilter verdicts and _OrderKey.generate values enter the model as data computed by harness reference "
            "functions (ref_match/ref_key, asserted equal to the real filter verdict at every call)"]
 ASSUMPTIONS = ["one Python object per flow id (View never sees two distinct objects with the same id)",
-               "a flow's attributes change only immediately before View.update([flow]) is called for it (hooks) or while it is not stored",
+               "theorems: a flow's attributes change only immediately before View.update([flow]) is called for it (hooks) or while it is not stored; silent changes (op mut) are covered by correspondence, and the oracle exempts a flow from membership/order checks until the view is told",
                "flows are not killable side-effect relevant: Flow.kill() in View.remove does not change sort keys or filter verdicts used here"]
 
 METHODS = ["GET", "POST", "PUT", "DELETE"]
@@ -81,9 +82,13 @@ def _random_ops(rng, cur, n):
     np_ = len(cur)
     for _ in range(n):
         k = rng.weighted([(24, "add"), (26, "upd"), (9, "rm"), (8, "flt"), (8, "ord"), (5, "rev"), (7, "tm"), (2, "clr"),
-                          (4, "cnm"), (2, "ff"), (2, "addm"), (2, "updm"), (2, "rmm")])
+                          (4, "cnm"), (2, "ff"), (2, "addm"), (2, "updm"), (2, "rmm"), (3, "mut")])
         if k == "add":
             ops.append(["add", rng.below(np_)])
+        elif k == "mut":                     # the object changes; the view is told later or never
+            i = rng.below(np_)
+            cur[i] = _mutated(rng, cur[i])
+            ops.append(["mut", i, cur[i]])
         elif k == "upd":
             i = rng.below(np_)
             cur[i] = _mutated(rng, cur[i])
@@ -125,7 +130,10 @@ def _fragment(rng, cur):
     def upd(i, key=None):
         cur[i] = _mutated(rng, cur[i], key)
         return ["upd", i, cur[i]]
-    which = rng.below(9)
+    which = rng.below(10)
+    if which == 9:      # key changes silently, then the flow is removed / another one is updated
+        cur[i] = _mutated(rng, cur[i], kf)
+        return [["add", i], ["add", j], ["ord", o1], ["mut", i, cur[i]], upd(j), ["rm", i], ["add", i]]
     if which == 0:      # marked-only mode, then new and updated flows
         return [["add", i], ["tm"], ["add", j], upd(i, "mk"), upd(j)]
     if which == 1:      # cache a second order, change its key under the first, come back
@@ -253,6 +261,9 @@ def run_impl(case):
             try:
                 if k == "add":
                     v.add([flows[op[1]]])
+                elif k == "mut":
+                    cur[op[1]] = op[2]
+                    _apply(flows[op[1]], op[2])
                 elif k == "upd":
                     cur[op[1]] = op[2]
                     _apply(flows[op[1]], op[2])
@@ -310,7 +321,7 @@ def _ranks(case):
     """order-preserving encoding of every sort key that occurs in the case as a small number"""
     specs = list(case["pool"])
     for op in case["ops"]:
-        if op[0] == "upd":
+        if op[0] in ("upd", "mut"):
             specs.append(op[2])
         elif op[0] == "updm":
             specs += [s for _, s in op[1]]
@@ -357,6 +368,9 @@ def coq_case(case, obs):
         elif k == "upd":
             cur[op[1]] = op[2]
             c = f"Single (Update {_cflow(op[1], op[2], ranks)})"
+        elif k == "mut":
+            cur[op[1]] = op[2]
+            c = "MutateOnly " + clist([_cflow(op[1], op[2], ranks)], "flow")
         elif k == "rm":
             c = f"Single (Remove {op[1]})"
         elif k == "flt":
@@ -396,17 +410,26 @@ def _walk(case, obs):
     cur = [dict(s) for s in case["pool"]]
     stored = []                 # ids the caller has added and not removed, in order
     hist = {}                   # (id, order) -> set of key values since the flow was stored
+    dirty = set()               # flows changed without the view having been told yet
     prev = {"visible": [], "rev": False}
     for op, st in zip(case["ops"], obs["steps"]):
         k = op[0]
         if "raised" in st:
-            yield op, st, None, None, None, None
+            yield op, st, None, None, None, None, None
             return
         if k == "upd":
             cur[op[1]] = op[2]
+            dirty.discard(op[1])
+        elif k == "mut":
+            cur[op[1]] = op[2]
+            if op[1] in stored:
+                dirty.add(op[1])
         elif k == "updm":
             for i, s in op[1]:
                 cur[i] = s
+                dirty.discard(i)
+        elif k in ("flt", "tm", "cnm", "clr"):
+            dirty.clear()               # every stored flow is re-evaluated and re-keyed
         if k in ("add", "addm"):
             for i in ([op[1]] if k == "add" else op[1]):
                 if i not in stored:
@@ -415,6 +438,7 @@ def _walk(case, obs):
             for i in ([op[1]] if k == "rm" else op[1]):
                 if i in stored:
                     stored.remove(i)
+                    dirty.discard(i)
                     for o in ORDERS:
                         hist.pop((i, o), None)
         elif k == "clr":
@@ -426,7 +450,7 @@ def _walk(case, obs):
         for i in stored:
             for o in ORDERS:
                 hist.setdefault((i, o), set()).add(ref_key(cur[i], o))
-        yield op, st, prev, cur, list(stored), hist
+        yield op, st, prev, cur, list(stored), hist, set(dirty)
         prev = st
 
 
@@ -437,7 +461,7 @@ def oracle(case, obs):
         if not any(x["key"] == key for x in out):
             out.append({"key": key, "what": what})
     n = 0
-    for op, st, prev, cur, stored, hist in _walk(case, obs):
+    for op, st, prev, cur, stored, hist, dirty in _walk(case, obs):
         n += 1
         at = f"after call {n} {op[0]}"
         if "raised" in st:
@@ -449,8 +473,8 @@ def oracle(case, obs):
         want = [i for i in stored if ref_match(st["flt"], cur[i]) and (not st["sm"] or cur[i]["mk"])]
         if len(set(vis)) != len(vis):
             bad("view-duplicate", f"{at}: a flow is listed twice: {vis}")
-        extra = [i for i in vis if i not in want]
-        missing = [i for i in want if i not in vis]
+        extra = [i for i in vis if i not in want and not (i in dirty and i in stored)]
+        missing = [i for i in want if i not in vis and i not in dirty]
         if missing:
             bad("view-missing", f"{at}: matching stored flows {missing} are not shown ({vis})")
         if extra:
@@ -461,9 +485,11 @@ def oracle(case, obs):
                 bad("view-extra", f"{at}: flows {extra} are shown but do not match / are not stored")
         keys = [ref_key(cur[i], st["order"]) for i in vis]
         asc = list(reversed(keys)) if st["rev"] else keys
+        ids = list(reversed(vis)) if st["rev"] else vis
+        clean = [j for j in range(len(ids)) if ids[j] not in dirty]      # order is promised among notified flows
+        asc, ids = [asc[j] for j in clean], [ids[j] for j in clean]
         inv = [j for j in range(len(asc) - 1) if asc[j] > asc[j + 1]]
         if inv:
-            ids = list(reversed(vis)) if st["rev"] else vis
             stale = all(len(hist.get((ids[j], st["order"]), ())) > 1 or len(hist.get((ids[j + 1], st["order"]), ())) > 1
                         for j in inv)
             if stale:
